@@ -15,6 +15,7 @@ import (
 	"github.com/mgtv-tech/redis-GunYu/pkg/io/pipe"
 	"github.com/mgtv-tech/redis-GunYu/pkg/log"
 	usync "github.com/mgtv-tech/redis-GunYu/pkg/sync"
+	"github.com/mgtv-tech/redis-GunYu/pkg/verifhook"
 )
 
 type Storer struct {
@@ -184,6 +185,7 @@ func (s *Storer) resetDataSet() {
 			return nil
 		}
 		s.logger.Infof("remove path : %s", path)
+		verifhook.Point("store.fs", "reset.remove", path)
 		err = os.RemoveAll(path)
 		if err != nil {
 			s.logger.Errorf("remove : path(%s), error(%v)", path, err)
